@@ -18,6 +18,10 @@ using namespace soplex;
 #ifdef VX_ASAN
 extern "C" size_t __sanitizer_get_allocated_size(const volatile void* p);
 extern "C" size_t __sanitizer_get_current_allocated_bytes();
+// freed memory is overwritten with a known byte (the ASan counterpart of the runner's M_PERTURB fill): a value read from an object that
+// was already destroyed then shows up as garbage in the result instead of as the stale - and plausible - old value.  GMP is not
+// instrumented, so ASan itself does not see such reads.
+extern "C" const char* __asan_default_options() { return "max_free_fill_size=1048576:free_fill_byte=85"; }
 static size_t block_size(const void* p) { return __sanitizer_get_allocated_size(p); }
 static size_t heap_bytes() { return __sanitizer_get_current_allocated_bytes(); }
 #else
@@ -491,6 +495,19 @@ static void cmp_cstring(Step& st, const char* what, char* ret, const std::string
    }
    else if(prefixOnly ? strncmp(ret, expect.c_str(), expect.size()) != 0 : expect != ret)
       st.mismatch("string-mismatch", std::string(what) + ": C returned '" + jesc(ret) + "', C++ value is '" + expect + "'");
+   else if(prefixOnly)
+   {
+      // tokens beyond the values the C++ getter defines: whatever they are, each must be a rational in canonical form
+      // (anything Rational::str() prints for a live object is); garbage means the wrapper formatted an object that no longer exists
+      for(auto& tok : split(std::string(ret + expect.size()), ' '))
+      {
+         if(tok.empty()) continue;
+         mpq_class q;
+         bool ok = q.set_str(tok, 10) == 0;
+         if(ok) { mpq_class r = q; r.canonicalize(); ok = (r.get_str() == tok); }
+         if(!ok) { st.mismatch("string-garbage-token", std::string(what) + ": C returned '" + jesc(ret) + "'; the C++ getter defines '" + expect + "' and the extra token '" + jesc(tok) + "' is not a rational in canonical form"); break; }
+      }
+   }
    delete[] ret;
 }
 static std::string file_content(const std::string& p)
@@ -1072,7 +1089,7 @@ static bool safe_digest(SoPlex* s, std::string& out, std::string& asan)
 static std::string sig_of(const std::string& rule, const Op& op) { return rule + ":" + FNAME[op.fn] + "[" + vlabel(op) + "]"; }
 
 // executes the sequence on a fresh handle + fresh mirror; judges the LAST call (every prefix is a sequence of its own)
-static SeqResult run_seq(const Seq& q, Ctx& c)
+static SeqResult run_seq(const Seq& q, Ctx& c, uint64_t beforeHash = 0)
 {
    install_guard();
    SeqResult res;
@@ -1088,6 +1105,7 @@ static SeqResult run_seq(const Seq& q, Ctx& c)
       safe_digest((SoPlex*)h, a, ra); safe_digest(mp.get(), b, rb);
       c.count("init_states_checked");
       if(a != b) { c.violation(std::string("init-mismatch:") + INITNAME[q.init], q.str(), first_diff(a, b)); diverged = true; }
+      res.h = fnv_str(b);
    }
    std::string before;
    for(size_t k = 0; k < q.ops.size() && !dead; ++k)
@@ -1095,7 +1113,7 @@ static SeqResult run_seq(const Seq& q, Ctx& c)
       const Op& op = q.ops[k];
       bool last = k + 1 == q.ops.size();
       St s = state_of(*mp);
-      if(last) { std::string r; safe_digest(mp.get(), before, r); }
+      if(last && !beforeHash) { std::string r; safe_digest(mp.get(), before, r); beforeHash = fnv_str(before); }
       Step st;
       apply(op, h, mp, s, st);
       trace += (k ? " ; " : "") + st.pretty;
@@ -1134,17 +1152,20 @@ static SeqResult run_seq(const Seq& q, Ctx& c)
          if((oka != okb) || (ra.empty() != rb.empty()))
             c.violation(sig_of("state-mismatch-accessor-failure", op), q.str(), std::string("C++ accessors ") + (oka ? "worked" : "died") + "/" + ra + " on the handle, " + (okb ? "worked" : "died") + "/" + rb + " on the mirror | " + trace);
          else
+         {
             c.count(std::string("cxx_accessor_failure_on_both_objects(not judged).after.") + FNAME[op.fn] + "[" + vlabel(op) + "]");
+            if(getenv("C20_DEBUG")) fprintf(stderr, "C20_DEBUG accessor failure on both objects: %s | %s | %s\n", q.str().c_str(), trace.c_str(), ra.c_str());
+         }
          dead = true;
          break;
       }
       c.count("digests_compared");
       if(a != b) { c.violation(sig_of("state-mismatch", op), q.str(), first_diff(a, b) + " | " + trace); diverged = true; }
-      if(b != before) c.count("state_changing_sequences");
-      if(b != before || st.compared > 0) c.count("nontrivial_sequences");
+      res.h = fnv_str(b);
+      if(res.h != beforeHash) c.count("state_changing_sequences");
+      if(res.h != beforeHash || st.compared > 0) c.count("nontrivial_sequences");
       if(mp->_rationalLP != nullptr) c.count("final_states_with_rational_lp");
       if(mp->hasSol()) c.count("final_states_with_solution");
-      res.h = fnv_str(b);
       c.state(std::to_string(res.h));
       if(c.wantSample() && q.ops.size() >= 2 && (fnv_str(q.str()) % 1499) == 0)
          c.sample("{\"sequence\":" + jstr(trace) + ",\"case\":" + jstr(q.str()) + "}");
@@ -1231,7 +1252,7 @@ int main(int argc, char** argv)
             Seq s2 = s;
             s2.ops.push_back(op2);
             set_sub(opcode(op2) * 1000000);
-            SeqResult r2 = run_seq(s2, c);
+            SeqResult r2 = run_seq(s2, c, r1.h);
             h = h * 31 + r2.h;
             c.count("transitions");
             if(!r2.alive) { c.count("subtrees_pruned_after_violation"); continue; }
@@ -1241,7 +1262,7 @@ int main(int argc, char** argv)
                   Seq s3 = s2;
                   s3.ops.push_back(op3);
                   set_sub(opcode(op2) * 1000000 + opcode(op3));
-                  h = h * 31 + run_seq(s3, c).h;
+                  h = h * 31 + run_seq(s3, c, r2.h).h;
                   c.count("transitions");
                }
          }
@@ -1276,7 +1297,7 @@ int main(int argc, char** argv)
          Seq s2 = s;
          s2.ops.push_back(g);
          set_sub(opcode(g) * 1000000);
-         h = h * 31 + run_seq(s2, c).h;
+         h = h * 31 + run_seq(s2, c, r1.h).h;
          c.count("transitions");
          c.count("sweep.get_calls");
       }
